@@ -523,7 +523,7 @@ for k1 in ORDER:
                 '    reach!(matches!(&got, Ok(_)));\n    reach!(matches!(&got, Err(LintError::DivisionByZero)));\n    reach!(matches!(&got, Err(LintError::Overflow)));\n' +
                 '    reach!(matches!(&inner, Ok(Variant::VInteger(_))));\n' +
                 '    std::mem::forget(got);\n    std::mem::forget(inner);\n')
-        qd.append('\n//# harness qb_divide_%s_%s tier=quick label=complete props=C01,C06,C12 fn=rusty_linter/src/core/casting.rs::qb_divide\n'
+        qd.append('\n//# harness qb_divide_%s_%s tier=quick tier.C01=thorough tier.C06=thorough label=complete props=C01,C06,C12 fn=rusty_linter/src/core/casting.rs::qb_divide\n'
                   'harness!(qb_divide_%s_%s, 2, stub(rusty_variant::Variant::divide, any_divide), {\n%s});\n' % (k1, k2, k1, k2, body))
 open('' + __import__('os').path.join(__import__('os').path.dirname(__import__('os').path.abspath(__file__)), '..', 'kani_in', '') + 'qb_divide.rs', 'w').write(''.join(qd))
 
